@@ -499,6 +499,47 @@ def c07(case: Case):
     return out, n
 
 
+def c07_names(case: Case):
+    """results take the names the docstring gives them and are otherwise named result_1, result_2, ... in order
+    (numpydoc lists one entry per result; decided only when there are as many entries as results)"""
+    out = []
+    n = 0
+    if case.answer.get("exc") or case.pkg.style != "numpydoc" or case.job.get("nc"):
+        return out, n
+    idx, errors = index_stubs(impl_files(case))
+    if errors:
+        return out, n
+    for t in truth_decls(case.pkg):
+        if t["kind"] not in ("function", "method") or not t["public"]:
+            continue
+        f = t["obj"]
+        if f.ret is None or f.deco == "prop":
+            continue
+        owner, name = expected_location(t)
+        hits = idx.get((owner, name, "fun"), [])
+        if len(hits) != 1:
+            continue
+        rs = hits[0][1]["results"]
+        want_n = len(f.ret.args) if f.ret.kind == "tuple" else 1
+        docs = list(f.result_docs or [])
+        if len(rs) != want_n or len(docs) != want_n:
+            continue
+        n += 1
+        k = 0
+        want = []
+        for dn, _t, _d in docs:
+            if dn:
+                want.append(dn)
+            else:
+                k += 1
+                want.append(f"result_{k}")
+        got = [r["pyname"] if "pyname" in r else r["name"] for r in rs]
+        if got != want:
+            out.append({"what": f"{t['owner']}.{t['name']}: result names {got}, the docstring and the numbering rule give {want}",
+                        "decl": f"{t['owner']}.{t['name']}", "finding": None})
+    return out, n
+
+
 # ---------------------------------------------------------------------------------------------------------
 TODO = {
     "param": "// TODO Some parameter have no type information.",
